@@ -18,6 +18,7 @@ import (
 	"sort"
 	"strings"
 	"sync"
+	"time"
 
 	"github.com/nspcc-dev/neofs-node/verif/lib/ev"
 	"github.com/nspcc-dev/neofs-node/verif/lib/seqx"
@@ -31,33 +32,55 @@ var (
 	dbgFails = map[string]string{}
 )
 
-// drift is impl-minus-reference per component ("<container>/<oracle>.<counter>").
+// drift is value-minus-reference per component ("<container>/<counter>").
 type drift map[string]int64
 
+// Components judged per container. "count" is the object number used for size estimation in its
+// unfloored form (phy counter - gc counter) against the number of physical objects that carry no
+// garbage mark; "size" is the payload counter against the payload of those objects. Using the
+// unfloored difference keeps the attribution on the transition that really introduces a
+// difference (the reported value max(0, phy-gc) can hide it until a later put).
+var comps = [7]string{"phy", "root", "ts", "lock", "link", "count", "size"}
+
 type measurement struct {
-	d         drift
+	impl      drift    // stored counters minus the raw-dump recount
+	sync      drift    // counters after DB.SyncCounters (on a copy) minus the same raw-dump recount
 	immediate []string // failures that are not differences (API inconsistency, wrap-around)
+	feat      string   // structural features of the dump that matter for the recount
+	dump      *mw.Dump
 }
 
 func (m *measurement) clean() bool {
 	if len(m.immediate) > 0 {
 		return false
 	}
-	for _, v := range m.d {
-		if v != 0 {
-			return false
+	for _, d := range []drift{m.impl, m.sync} {
+		for _, v := range d {
+			if v != 0 {
+				return false
+			}
 		}
 	}
 	return true
 }
 
+func against(d drift, cn string, st [7]uint64, rc mw.CnrCount) {
+	d[cn+"/phy"] = int64(st[0]) - int64(rc.Phy)
+	d[cn+"/root"] = int64(st[1]) - int64(rc.Root)
+	d[cn+"/ts"] = int64(st[2]) - int64(rc.TS)
+	d[cn+"/lock"] = int64(st[3]) - int64(rc.Lock)
+	d[cn+"/link"] = int64(st[4]) - int64(rc.Link)
+	d[cn+"/count"] = int64(st[0]) - int64(st[5]) - int64(rc.LiveNumber)
+	d[cn+"/size"] = int64(st[6]) - int64(rc.LiveSize)
+}
+
 func measure(w *mw.World) *measurement {
-	ms := &measurement{d: drift{}}
+	ms := &measurement{impl: drift{}, sync: drift{}}
 	before := w.Dump()
+	ms.dump = before
 	var sum [7]uint64
 	var rcs [mw.NCnr]mw.CnrCount
-	type info struct{ n, size uint64 }
-	var infos [mw.NCnr]info
+	var feats []string
 	for c := 0; c < mw.NCnr; c++ {
 		rc := before.Recount(c)
 		rcs[c] = rc
@@ -71,24 +94,32 @@ func measure(w *mw.World) *measurement {
 		if err != nil {
 			ms.immediate = append(ms.immediate, "api:GetContainerInfo-error")
 		}
-		infos[c] = info{ci.ObjectsNumber, ci.StorageSize}
-		cn := mw.CnrNames[c]
-		// (a) independent recount. A removed container reports zero counters by design while its
-		// objects are still indexed; the text is silent about that window, so the per-type counters
-		// are not judged there -- the size-estimation values are (every object is marked for removal).
-		if !rc.Removed {
-			ms.d[cn+"/a.phy"] = int64(rc.Stored[0]) - int64(rc.Phy)
-			ms.d[cn+"/a.root"] = int64(rc.Stored[1]) - int64(rc.Root)
-			ms.d[cn+"/a.ts"] = int64(rc.Stored[2]) - int64(rc.TS)
-			ms.d[cn+"/a.lock"] = int64(rc.Stored[3]) - int64(rc.Lock)
-			ms.d[cn+"/a.link"] = int64(rc.Stored[4]) - int64(rc.Link)
-			ms.d[cn+"/a.info-count"] = int64(ci.ObjectsNumber) - int64(rc.LiveNumber)
-			ms.d[cn+"/a.info-size"] = int64(ci.StorageSize) - int64(rc.LiveSize)
-		} else {
-			ms.d[cn+"/a.info-count"] = int64(ci.ObjectsNumber)
-			ms.d[cn+"/a.info-size"] = int64(ci.StorageSize)
+		// the reported values must be the stored counters: number = max(0, phy-gc), size = payload
+		wantN, wantS := uint64(0), uint64(0)
+		if rc.Exists && !rc.Removed {
+			if rc.Stored[0] > rc.Stored[5] {
+				wantN = rc.Stored[0] - rc.Stored[5]
+			}
+			wantS = rc.Stored[6]
+		}
+		if ci.ObjectsNumber != wantN || ci.StorageSize != wantS {
+			ms.immediate = append(ms.immediate, "api:GetContainerInfo-differs-from-stored-counters")
+		}
+		// A container that was marked for removal as a whole reports zeros by design while its
+		// objects are still indexed; the text is silent about that window: only the size-estimation
+		// values (zero: every object is marked for removal) are judged there, by the API check above.
+		if rc.Exists && !rc.Removed {
+			against(ms.impl, mw.CnrNames[c], rc.Stored, rc)
+		}
+		if rc.MarksNonPhys > 0 {
+			feats = append(feats, "marks-on-non-physical-addresses")
+		}
+		if rc.MarksRedundant > 0 {
+			feats = append(feats, "redundant-marks")
 		}
 	}
+	sort.Strings(feats)
+	ms.feat = strings.Join(dedup(feats), "+")
 	oc, err := w.DB.ObjectCounters()
 	if err != nil {
 		ms.immediate = append(ms.immediate, "api:ObjectCounters-error")
@@ -97,7 +128,7 @@ func measure(w *mw.World) *measurement {
 		ms.immediate = append(ms.immediate, "api:ObjectCounters-differs-from-stored-counters")
 	}
 
-	// (b) the repository's recount on a copy
+	// the repository's recount on a copy
 	cp, path, err := w.CopyAndSync()
 	if err != nil {
 		ms.immediate = append(ms.immediate, "harness:copy-and-sync-failed:"+err.Error())
@@ -105,17 +136,23 @@ func measure(w *mw.World) *measurement {
 	}
 	after := mw.DumpDB(cp)
 	for c := 0; c < mw.NCnr; c++ {
-		cn := mw.CnrNames[c]
 		ra := after.Recount(c)
-		for i := range ra.Stored {
-			ms.d[cn+"/b."+mw.CounterNames[i]] = int64(rcs[c].Stored[i]) - int64(ra.Stored[i])
+		if ra.Exists && !ra.Removed {
+			against(ms.sync, mw.CnrNames[c], ra.Stored, rcs[c])
 		}
-		ci, _ := cp.GetContainerInfo(mw.Cnrs[c])
-		ms.d[cn+"/b.info-count"] = int64(infos[c].n) - int64(ci.ObjectsNumber)
-		ms.d[cn+"/b.info-size"] = int64(infos[c].size) - int64(ci.StorageSize)
 	}
 	mw.CloseCopy(cp, path)
 	return ms
+}
+
+func dedup(s []string) []string {
+	var r []string
+	for i, x := range s {
+		if i == 0 || s[i-1] != x {
+			r = append(r, x)
+		}
+	}
+	return r
 }
 
 func abs(x int64) int64 {
@@ -138,67 +175,46 @@ func worsened(prev, cur drift) []string {
 	return r
 }
 
-// targetClass renders the structural situation of the operation's target before the operation.
-func targetClass(m *mw.Model, o mw.Op) string {
+// targetClass renders the structural situation of the operation's target before the operation:
+// storage and mark facts from the raw dump, relations from the model.
+func targetClass(d *mw.Dump, m *mw.Model, o mw.Op) string {
 	switch o.Kind {
 	case mw.OpEpoch:
 		return ""
 	case mw.OpInhumeCnr, mw.OpDeleteCnr:
-		cs := &m.C[o.Cnr]
+		rc := d.Recount(o.Cnr)
 		switch {
-		case cs.Removed:
+		case rc.Removed:
 			return "removed-container"
-		case len(cs.Objs) == 0:
+		case rc.Indexed == 0:
 			return "empty-container"
 		}
 		return "container-with-objects"
 	}
 	s := mw.ByName[o.Obj]
-	stored, phys := m.Stored(o.Obj)
+	describe := func(name string) string {
+		sp := mw.ByName[name]
+		st, mk := d.ObjectFacts(sp.Cnr, sp.ID)
+		r := st
+		if mk != "" {
+			r += "+" + mk
+		}
+		return r
+	}
 	var p []string
-	p = append(p, s.Kind.String())
 	switch {
-	case !stored:
-		p = append(p, "unstored")
-	case phys:
-		p = append(p, "stored")
+	case o.Kind == mw.OpPut && (s.Kind == mw.KTomb || s.Kind == mw.KLock):
+		p = append(p, s.Kind.String()+":"+describe(o.Obj), "target:"+describe(s.Target))
+		if n := len(m.C[s.Cnr].Children(s.Target)); n > 0 {
+			p = append(p, "target-has-known-parts")
+		}
 	default:
-		p = append(p, "header-only")
-	}
-	mk, unsure := m.MarkOf(o.Obj)
-	switch {
-	case unsure:
-		p = append(p, "mark-unsure")
-	case mk == mw.MarkDefault:
-		p = append(p, "marked")
-	case mk == mw.MarkRedundant:
-		p = append(p, "marked-redundant")
-	}
-	if m.Tombstoned(o.Obj) {
-		p = append(p, "tombstoned")
-	}
-	if s.Kind == mw.KTomb || s.Kind == mw.KLock {
-		ts, tphys := m.Stored(s.Target)
-		tk := mw.ByName[s.Target].Kind.String()
-		switch {
-		case !ts:
-			p = append(p, "target="+tk+"/unstored")
-		case tphys:
-			p = append(p, "target="+tk+"/stored")
-		default:
-			p = append(p, "target="+tk+"/header-only")
-		}
-		if tm, _ := m.MarkOf(s.Target); tm != mw.MarkNone {
-			p = append(p, "target-marked")
+		p = append(p, describe(o.Obj))
+		if len(m.C[s.Cnr].Children(o.Obj)) > 0 {
+			p = append(p, "has-known-parts")
 		}
 	}
-	if n := len(m.C[s.Cnr].Children(o.Obj)); n > 0 {
-		p = append(p, "has-known-parts")
-	}
-	if par, _ := m.ParentOf(o.Obj); par != "" {
-		p = append(p, "has-parent")
-	}
-	if m.C[s.Cnr].Removed {
+	if d.Recount(s.Cnr).Removed {
 		p = append(p, "container-removed")
 	}
 	return strings.Join(p, ",")
@@ -214,31 +230,37 @@ func opCnr(o mw.Op) int {
 	return mw.ByName[o.Obj].Cnr
 }
 
-// render builds the normalised fingerprint and the description of one drifting step.
-func render(o mw.Op, cls, verdict string, prev, cur drift, ws []string) (string, string) {
-	var comps, detail []string
+// render lists the worsened components in normalised form (sign only) and in detail.
+func render(o mw.Op, prev, cur drift, ws []string) (string, string) {
+	var cs, detail []string
 	for _, k := range ws {
 		cn, comp, _ := strings.Cut(k, "/")
 		where := ""
 		if oc := opCnr(o); oc < 0 || mw.CnrNames[oc] != cn {
 			where = "other-container:"
 		}
-		delta := cur[k] - prev[k]
-		mag := fmt.Sprintf("%+d", delta)
-		if strings.HasSuffix(comp, "payload") || strings.HasSuffix(comp, "info-size") {
-			mag = "+bytes"
-			if delta < 0 {
-				mag = "-bytes"
-			}
+		sign := "+"
+		if cur[k]-prev[k] < 0 {
+			sign = "-"
 		}
-		comps = append(comps, where+comp+mag)
-		detail = append(detail, fmt.Sprintf("%s: difference %+d -> %+d", k, prev[k], cur[k]))
+		cs = append(cs, where+comp+sign)
+		detail = append(detail, fmt.Sprintf("%s %+d -> %+d", k, prev[k], cur[k]))
 	}
-	sort.Strings(comps)
-	fp := fmt.Sprintf("drift:%s(%s):%s:%s", o.Kind, cls, verdict, strings.Join(comps, ","))
-	what := fmt.Sprintf("%s (%s, %s) makes counters differ from the recount [a = raw-dump recount, b = DB.SyncCounters on a copy; impl minus reference]: %s",
-		o, cls, verdict, strings.Join(detail, "; "))
-	return fp, what
+	sort.Strings(cs)
+	// "count" (= phy - gc against the unmarked physical objects) is derived: when the phy counter
+	// itself is off in the same step, it is left out of the normalised class (kept in the detail).
+	var prim []string
+	hasPhy := false
+	for _, c := range cs {
+		hasPhy = hasPhy || strings.HasSuffix(c, "phy+") || strings.HasSuffix(c, "phy-")
+	}
+	for _, c := range cs {
+		if hasPhy && (strings.HasSuffix(c, "count+") || strings.HasSuffix(c, "count-")) {
+			continue
+		}
+		prim = append(prim, c)
+	}
+	return strings.Join(prim, ","), strings.Join(detail, "; ")
 }
 
 func oracle(s *mw.Sys) (string, string) {
@@ -262,11 +284,22 @@ func oracle(s *mw.Sys) (string, string) {
 		m.Apply(o, err == nil)
 	}
 	prev := measure(w)
+	report := func(fp, what string) (string, string) {
+		if debug {
+			mu.Lock()
+			if _, ok := dbgFails[fp]; !ok {
+				dbgFails[fp] = fmt.Sprintf("%v: %s", s.HistNames(), what)
+			}
+			mu.Unlock()
+		}
+		return fp, what
+	}
 	for _, o := range s.Steps[n:] {
-		cls := targetClass(m, o)
+		cls := targetClass(prev.dump, m, o)
 		err := w.Exec(o)
 		m.Apply(o, err == nil)
 		cur := measure(w)
+		verdict := mw.ErrClass(err)
 		var newImm []string
 		for _, im := range cur.immediate {
 			seen := false
@@ -279,19 +312,41 @@ func oracle(s *mw.Sys) (string, string) {
 		}
 		if len(newImm) > 0 {
 			sort.Strings(newImm)
-			return fmt.Sprintf("immediate:%s(%s):%s", o.Kind, cls, strings.Join(newImm, ",")),
-				fmt.Sprintf("after %s: %s", o, strings.Join(newImm, ", "))
+			return report(fmt.Sprintf("immediate:%s(%s):%s:%s", o.Kind, cls, verdict, strings.Join(dedup(newImm), ",")),
+				fmt.Sprintf("after %s: %s", o, strings.Join(newImm, ", ")))
 		}
-		if ws := worsened(prev.d, cur.d); len(ws) > 0 {
-			fp, what := render(o, cls, mw.ErrClass(err), prev.d, cur.d, ws)
-			if debug {
-				mu.Lock()
-				if _, ok := dbgFails[fp]; !ok {
-					dbgFails[fp] = fmt.Sprintf("%v: %s", s.HistNames(), what)
-				}
-				mu.Unlock()
+		wi, wsy := worsened(prev.impl, cur.impl), worsened(prev.sync, cur.sync)
+		if len(wi) > 0 {
+			c, det := render(o, prev.impl, cur.impl, wi)
+			what := fmt.Sprintf("%s (%s; verdict %s) makes the stored counters differ from the raw-dump recount (counter minus recount): %s", o, cls, verdict, det)
+			if len(wsy) > 0 {
+				_, d2 := render(o, prev.sync, cur.sync, wsy)
+				what += "; DB.SyncCounters on a copy is off too: " + d2
+			} else {
+				what += "; DB.SyncCounters on a copy gives the recount's values for these"
 			}
-			return fp, what
+			return report(fmt.Sprintf("counters:%s(%s):%s:%s", o.Kind, cls, verdict, c), what)
+		}
+		if len(wsy) > 0 {
+			c, det := render(o, prev.sync, cur.sync, wsy)
+			// the structural feature of the state that explains the component
+			var why []string
+			if strings.Contains(c, "count") {
+				if strings.Contains(cur.feat, "marks-on-non-physical-addresses") {
+					why = append(why, "marks-on-non-physical-addresses")
+				} else {
+					why = append(why, "count-unexplained")
+				}
+			}
+			if strings.Contains(c, "size") {
+				if strings.Contains(cur.feat, "redundant-marks") {
+					why = append(why, "redundant-marks")
+				} else {
+					why = append(why, "size-unexplained")
+				}
+			}
+			return report(fmt.Sprintf("resync:%s:state-has:%s", c, strings.Join(why, "+")),
+				fmt.Sprintf("after %s (%s) the repository's own recount DB.SyncCounters, run on a copy, differs from the raw-dump recount while the incrementally kept counters agree with it (resynced minus recount): %s", o, cls, det))
 		}
 		prev = cur
 	}
@@ -312,6 +367,9 @@ func driftAlphabet() []mw.Op {
 
 func main() {
 	r := ev.Start("C02", ev.ModelChecking)
+	if r.Quick() && r.Budget > 70*time.Second {
+		r.Budget = 70 * time.Second // leave room for the build inside the 90 s quick-tier envelope
+	}
 	scratch := mw.MkScratch("verif-c02")
 	defer os.RemoveAll(scratch)
 
